@@ -58,7 +58,7 @@ def runC05P (toks : List String) : String :=
 def parseFx (s : String) : Fixes :=
   if s = "FX=current" then Fixes.current else
   let has (c : Char) := (s.drop 3).toString.toList.contains c
-  { f4 := has 'a', f23 := has 'b', f22 := has 'c', fzomb := has 'd', fstale := has 'e', f31 := has 'k', fkept := has 'p', fpark := has 'q' }
+  { f4 := has 'a', f23 := has 'b', f22 := has 'c', fzomb := has 'd', fstale := has 'e', f31 := has 'k', fkept := has 'p', fpark := has 'q', fretarget := has 'r' }
 
 /-- `cp:w,cp:w,…`, `-` for the empty text -/
 def parseText (s : String) : Option Text :=
@@ -126,6 +126,7 @@ def parseMOp (s : String) : Option MOp :=
   | ["remove", k] => k.toNat?.map .remove
   | ["mpprintln", t] => (parseText t).map .mpPrintln
   | ["mpclear"] => some .mpClear
+  | ["retarget"] => some .retarget
   | "mpsuspend" :: ts => (ts.mapM parseText).map .mpSuspend
   | ["align", a] => some (.align (a = "bottom"))
   | "bar" :: k :: rest => do
